@@ -19,6 +19,7 @@ a label must arrive at the label's height.  This module turns that into a compos
   Lemmas/C20Lemmas.lean and Lemmas/C20Calls.lean holds for code with labels as well.
 -/
 import ChibiVerif.Lemmas.C20Calls
+import ChibiVerif.Model.C20Flow
 
 namespace ChibiVerif.Lemmas.C20
 open ChibiVerif ChibiVerif.Codegen ChibiVerif.Effect ChibiVerif.Asm ChibiVerif.Ast ChibiVerif.C20Scope
@@ -44,12 +45,6 @@ theorem H.add_zero' (a : H) : a + H.zero = a := by harith
 theorem H.add_mk_zero (a : H) : a + ⟨0, 0⟩ = a := by harith
 
 /-! ### skeletons: append lemmas -/
-
-/-- names of the labels a skeleton defines, in order -/
-def labelNames : List Step → List String
-  | [] => []
-  | .label l :: r => l :: labelNames r
-  | _ :: r => labelNames r
 
 theorem labelNames_append (a b : List Step) : labelNames (a ++ b) = labelNames a ++ labelNames b := by
   induction a with
@@ -381,12 +376,6 @@ theorem FlowR_label {A : List (String × H)} {o : H} {l : String} {r : H} (hl : 
     rcases hc with rfl | rfl <;> simp [scanRel, hlk]
 
 /-! ### what `classify` makes of the jump and label lines the generator prints -/
-
-/-- a label the generator may print: it starts with `.` (`.L.else.7`, `.L..12`, `.L.return.f`) -/
-def startsDot (l : String) : Bool :=
-  match l.toList with
-  | '.' :: _ => true
-  | _ => false
 
 theorem startsDot_elim {l : String} (h : startsDot l = true) : ∃ rest, l.toList = '.' :: rest := by
   unfold startsDot at h
